@@ -17,9 +17,11 @@
 
   Reach of the options (graphtage.py, json.py, builder.py, csv.py, xml.py): `allow_list_edits*` are fields of
   `ListNode` read by `ListNode.edits`; `json.build_tree` / `BasicBuilder` (JSON, JSON5, YAML, PLIST, pydiff lists) set
-  them from the options.  `CSVRow(...)`, `CSVNode(...)` (csv.py) and `XMLElementChildren(...)` (xml.py) are ListNodes
-  constructed WITHOUT the options, so they always behave as with the defaults (list edits allowed): the flags do not
-  reach CSV rows or XML child lists.  These node kinds are outside this model (`build` = `json.build_tree`).
+  them from the options, and so do `csv.build_tree` for `CSVNode(...)` (the rows) and every `CSVRow(...)` (its cells)
+  and `XMLElement.__init__` for `XMLElementChildren(...)` (the child elements).
+  A CSV table is, for `edits`, the tree `build o` makes of a list (rows) of lists (cells) of strings — (3), (4) apply to
+  it as they stand (stream `script`, cases `via: csv`, runs the real CSV loader against `edits o` on that tree under
+  every option set).  XML / HTML elements: Props/C10x.lean (`xml_no_list_edits_positional`, …; model `Xml.kidsScript o`).
   `allow_key_edits` selects DictNode vs FixedKeyDictNode in `build_tree` (model: `build`); `auto_match_keys` is copied
   to `DictNode.auto_match_keys` and read by `DictNode.edits` → `MultiSetEdit(auto_match_keys=…)`.
 -/
